@@ -10,12 +10,16 @@ are run on them and every column is compared with an independent spec-level pars
              qualities by symbol, list columns element by element, VCF POS-1, BED/SAM/GTF coordinates as written,
              typed INFO keys and genotype matrices per the header)
 
-Scope (systematic, see `bounds`): per format and per column every combination of field widths
-{(0),1,2,7} over 1..N records (N=2 quick, 3 thorough) with the neighbouring columns at a baseline, signs, '.'
-placeholders, list styles, all columns varied at once, adjacent column pairs (thorough), header lines 0..2,
-interior comments at every subset of gaps, LF/CRLF; FASTA at every wrap width x length; FASTQ with '@'/'+' as
-first quality character; VCF INFO key subsets/orders/prefix-named keys; genotype alphabets at every
-(record, sample) position.
+Scope (deterministic, see `bounds` and `rule` in the result): per format and per column every tuple of the column's
+token pool (text widths {0,1,2,7}, int digits {1,2,7(,10)}, signs, '.' placeholders, float notations, list styles) over
+1..3 records with the neighbouring columns at an unequal-width baseline; all columns varied at once; adjacent column
+pairs (thorough); header lines 0..3; interior comments at every subset of gaps; LF/CRLF; FASTA at every wrap width x
+length; FASTQ with '@'/'+' as first quality character; VCF INFO key subsets/orders/prefix-named keys; genotype
+alphabets at every (record, sample) position; the same VCF read through several buffer types in one process.
+
+Signatures: <format>:<column>:wrong-value:<zone> | <format>:count:wrong-number-of-entries:<zone> |
+<format>:exception:<root cause type>:<zone>; zone = class of the input (plain, empty, dot+number, signed, sci,
+list-trailing-comma, crlf, header, interior-comments, comment-with-tab, short-info-text, ...), never the varied column.
 """
 import itertools
 import os
@@ -417,6 +421,22 @@ def gen_delimited(fmt, tier, pools):
                 rows.append(row)
             yield "plain", render(fmt, rows), modes_all, "all"
             yield "crlf", render(fmt, rows, crlf=True), modes_all, "all"
+            if shift == 0:
+                # the last line of a text file may lack its terminator (whole-file read; chunked reading is C01's)
+                yield "no-final-newline", render(fmt, rows)[:-1], le, "all"
+    # B2. very unequal widths in one column: 300-character texts and 18-digit integers next to 1-character fields
+    for n in (2, 3):
+        for wide_row in range(n):
+            rows = baseline(fmt, pools, n)
+            for c, (_, kind) in enumerate(cols):
+                if kind in ("id0", "id", "str", "dna", "qualstr"):
+                    fn = {"dna": t_dna, "qualstr": t_qual}.get(kind, t_text)
+                    for r in range(n):
+                        rows[r][c] = fn(300 if r == wide_row else 1, r, c)
+                elif kind in ("int", "sint", "pos1", "optint"):
+                    for r in range(n):
+                        rows[r][c] = t_int(18 if r == wide_row else 1, r, c)
+            yield "wide", render(fmt, rows), le, "all"
     # C. adjacent column pairs (thorough): every combination of plain entries in two neighbouring columns, 2 records
     if not quick:
         for c in range(len(cols) - 1):
@@ -512,6 +532,8 @@ def gen_fastq(tier):
                 for crlf in (False, True):
                     if crlf and variant and n > 1 and (quick or n == 3):
                         continue
+                    if quick and variant and n == 2 and sum(ws) % 3:
+                        continue
                     nl = "\r\n" if crlf else "\n"
                     out = ""
                     for r in range(n):
@@ -523,7 +545,7 @@ def gen_fastq(tier):
                         plus = "+" + (name if variant == 1 and r % 2 == 0 else "")
                         out += "@" + name + nl + seq + nl + plus + nl + q + nl
                     zone = "crlf" if crlf else ("plain", "description+repeated-name", "special-first-quality-char")[variant]
-                    yield "fastq", zone, out, (le + ("raw",)) if n == 1 or (n == 2 and not quick) else le, "widths"
+                    yield "fastq", zone, out, (le + ("raw",)) if n == 1 or (n == 2 and not quick) else (le if not (quick and variant) else ("lazy",)), "widths"
 
 
 # ---- VCF INFO
@@ -605,9 +627,9 @@ def gen_vcf_info(tier):
                     continue
                 infos = [info_text(pat, 0, v)]
                 rows = [vcf_fixed(0) + infos]
-                yield "vcf-info", info_zone(infos, INFO_DECL, "crlf" if crlf else "info"), render("vcf", rows, hdr, crlf), le, "one-record"
+                yield "vcf-info", info_zone(infos, INFO_DECL, "crlf" if crlf else "info"), render("vcf", rows, hdr, crlf), (le if not quick or v == 0 else (le[(pi + v) % 2],)), "one-record"
     # two records: every ordered pair of patterns
-    pats2 = list(enumerate(pats)) if not quick else [(i, pats[i]) for i in (0, 1, 2, 3, 4, 5, 8, 9, 12, 15, 16, 17, 18, 20)]
+    pats2 = list(enumerate(pats)) if not quick else [(i, pats[i]) for i in (0, 1, 2, 3, 5, 9, 12, 16, 18, 21)]
     for (p1, pat1), (p2, pat2) in itertools.product(pats2, repeat=2):
         infos = [info_text(pat1, 0, p2), info_text(pat2, 1, p1)]
         rows = [vcf_fixed(0) + infos[:1], vcf_fixed(1) + infos[1:]]
@@ -669,10 +691,11 @@ def gen_vcf_gt(tier):
                             rows.append(vcf_fixed(r) + [infos[-1], "GT" if not style else "GT:DP:AD"] + gts)
                         crlf = (shift + n + ns) % 4 == 0
                         zone = info_zone(infos, INFO_DECL, "crlf" if crlf else ("gt-only" if not style else "gt+subfields"))
-                        yield fmt, zone, render("vcf", rows, hdr_info, crlf), le, "samples-%d" % ns
+                        modes = le if not quick else (le[(shift + style + n) % 2],)
+                        yield fmt, zone, render("vcf", rows, hdr_info, crlf), modes, "samples-%d" % ns
                         if shift % 4 == 0:
                             rows2 = [row[:7] + ["."] + row[8:] for row in rows]
-                            yield fmt, "no-info-header", render("vcf", rows2, hdr_plain), le, "samples-%d" % ns
+                            yield fmt, "no-info-header", render("vcf", rows2, hdr_plain), modes, "samples-%d" % ns
     # no sample columns at all: VCFBuffer2 gives an (n, 0) genotype matrix
     for n in (1, 2):
         rows = [vcf_fixed(r) + ["."] for r in range(n)]
@@ -725,28 +748,39 @@ def all_cases(tier):
 
 
 def run(tier="quick", seed=0):
-    nmax = 2 if tier == "quick" else 3
+    quick = tier == "quick"
     col = Collector("C02", tier, seed,
-                    "exhaustive per format: for each column every combination of its token pool (field widths {0,1,2,7(,10)}, signs, "
-                    "'.' placeholders, list styles) over 1..%d records with the other columns at an unequal-width baseline, all "
-                    "columns varied at once, header lines 0..3, interior comments at every subset of gaps, LF/CRLF, x read mode "
-                    "{lazy, eager, from_raw_buffer}; FASTA every (length, wrap width); VCF INFO key subsets/orders; genotype alphabets "
-                    "at every (record, sample) position. distinct = distinct (format, file text, read mode); every case non-trivial "
-                    "(each exercises the offset table of at least one record)" % nmax)
-    col.bounds = {"records": "1..%d (3 for all-columns, headers, comments, FASTA, genotypes)" % nmax,
-                  "text widths": [0, 1, 2, 7], "int digits": [1, 2, 7] + ([10] if tier != "quick" else []),
-                  "float tokens": FLOAT_TOKENS, "list lengths": "1..3", "samples": "0..3",
-                  "fasta": "L 1..%d x W in {1,2,3,4,9}" % (6 if tier == "quick" else 9),
-                  "formats": list(FORMATS) + list(EXTRA_FORMATS), "line ends": ["LF", "CRLF"]}
+                    "deterministic, per format: (A) for each column every tuple of its token pool (text widths {0,1,2,7}, int digits "
+                    "{1,2,7%s}, signs, '.' placeholders, float notations, list lengths/styles, 0..3 SAM tags) over 1..3 records with the "
+                    "other columns at an unequal-width baseline [quick: 3-record tuples and tuples of the 8-entry float pool thinned to a "
+                    "covering set; columns already covered through another format with the same reader skipped]; (B) all columns varied "
+                    "at once, 1..3 records; (C, thorough) adjacent column pairs; (D) 1..3 header lines, interior comments at every subset "
+                    "of gaps; LF and CRLF; read modes lazy / eager / from_raw_buffer.  FASTA: every (length, wrap width); FASTQ/2-line "
+                    "FASTA: every width tuple; VCF: INFO key subsets and orders (ordered pairs of %d patterns), typed by the header; "
+                    "genotype alphabets rotated through every (record, sample) position, 0..3 samples.  No random sampling (seed unused). "
+                    "distinct = distinct (format, file text, read mode); every case is non-trivial (>= 1 record whose offsets are computed)"
+                    % ("" if quick else ",10", 10 if quick else len(INFO_PATTERNS)))
+    col.bounds = {"records": "1..3", "text widths": [0, 1, 2, 7], "int digits": [1, 2, 7] + ([] if quick else [10]),
+                  "float tokens": FLOAT_TOKENS, "list lengths": "1..3", "samples": "0..3", "header lines": "0..3",
+                  "interior comments": "every subset of the n+1 gaps, n = 1..3",
+                  "fasta": "L 1..%d x W in {1,2,3,4,9}; 1..3 records" % (6 if quick else 9),
+                  "info keys": [k for k, _, _ in INFO_DECL], "info patterns": len(INFO_PATTERNS),
+                  "formats": list(FORMATS) + list(EXTRA_FORMATS), "line ends": ["LF", "CRLF"],
+                  "read modes": ["lazy", "eager", "raw"]}
     import logging
-    logging.getLogger("bionumpy").setLevel(logging.ERROR)      # "INFO tag missing in header" warnings, once per file
-    with TmpDir() as tmp:
-        for fmt, zone, text, modes, focus in all_cases(tier):
-            check_text(col, tmp, fmt, text, zone, modes, focus)
-            if col.out_of_time():
-                break
-        for text, order in type_sequence_cases():
-            check_type_sequence(col, tmp, text, order)
+    logger = logging.getLogger("bionumpy")
+    level = logger.level
+    logger.setLevel(logging.ERROR)      # silences the "INFO tag missing in header" warning printed once per file
+    try:
+        with TmpDir() as tmp:
+            for text, order in type_sequence_cases():
+                check_type_sequence(col, tmp, text, order)
+            for fmt, zone, text, modes, focus in all_cases(tier):
+                check_text(col, tmp, fmt, text, zone, modes, focus)
+                if col.out_of_time():
+                    break
+    finally:
+        logger.setLevel(level)
     return col.result()
 
 
